@@ -190,20 +190,28 @@ Inductive reach (fp : bool) : st -> Prop :=
 | reach_init : reach fp init
 | reach_step s l s' : reach fp s -> step fp s l = Some s' -> reach fp s'.
 
+(* the passivation manager never enters tryPassivation's critical section for an actor that is
+   no longer running: guaranteed by the repair (fp = true), an assumption otherwise *)
+Definition pass_ok (fp : bool) (s : st) (l : label) : bool :=
+  match l with LPassLock => fp || running s | _ => true end.
+
+Inductive reach_p (fp : bool) : st -> Prop :=
+| reach_p_init : reach_p fp init
+| reach_p_step s l s' : reach_p fp s -> pass_ok fp s l = true -> step fp s l = Some s' -> reach_p fp s'.
+
 (* "stops issued while the actor is not in a turn": an off-turn critical section never overlaps a
    turn — it is entered only while no worker holds the actor, and no turn begins while it lasts;
-   and no message is taken while a re-initialisation is in progress *)
+   and no turn begins while a re-initialisation is in progress *)
 Definition step_ok (s : st) (l : label) : bool :=
   match l with
   | LOffStop | LPassLock => match w s with WIdle => true | _ => false end
   | LTurnBegin => match cs s with None => negb (initing s) | _ => false end
-  | LInitBegin => match w s with WIdle => true | _ => false end
   | _ => true
   end.
 
 Inductive reach_q (fp : bool) : st -> Prop :=
 | reach_q_init : reach_q fp init
-| reach_q_step s l s' : reach_q fp s -> step_ok s l = true -> step fp s l = Some s' -> reach_q fp s'.
+| reach_q_step s l s' : reach_q fp s -> pass_ok fp s l = true -> step_ok s l = true -> step fp s l = Some s' -> reach_q fp s'.
 
 (* executions in which every stop is a PoisonPill (no Shutdown from another goroutine, no passivation) *)
 Definition pill_only (l : label) : bool :=
@@ -218,3 +226,91 @@ Definition emits_recvb (s s' : st) : Prop := trace s' = ERecvB (inc s) :: trace 
 Definition emits_postb (s s' : st) : Prop := trace s' = EPostB (inc s) :: trace s.
 Definition in_recv (s : st) : bool := match w s with WRecv => true | _ => false end.
 Definition in_post (s : st) : bool := match cs s with Some (_, CPost) => true | _ => false end.
+
+(* ------------------------------------------------------------------------------------------
+   Driver level (used by the tie).  The Go harness gates PostStop (always) and Receive
+   (per scenario); after each driver action the real actor runs on its own until every
+   goroutine is blocked at a gate or idle.  [quiesce] takes the internal labels the same way;
+   every state it passes through is reached by [step]. *)
+Inductive daction :=
+| DTell                 (* Tell(msg): IsRunning check + enqueue *)
+| DPill                 (* Tell(PoisonPill) *)
+| DCheck                (* first half of a Tell: the IsRunning check only (the send stays in flight) *)
+| DEnq                  (* second half: doReceive of a send in flight *)
+| DStopOff              (* go pid.Shutdown() from the driver: every off-turn path ends here *)
+| DPassivate            (* go pid.tryPassivation() : what the passivation manager does when the entry fires *)
+| DReleaseRecv          (* let the blocked handler return *)
+| DReleasePost.         (* let the blocked PostStop return *)
+
+Definition internal_label (gate_recv : bool) (s : st) : option label :=
+  match cs s with
+  | Some (_, CLocked) => Some LPostBegin
+  | _ =>
+    match w s, cs s with
+    | WPill, None => Some LPillLock
+    | WRecv, _ => if gate_recv then (if pass_wait s then match cs s with None => Some LPassLock | _ => None end else None) else Some LRecvEnd
+    | WTurn, _ => Some LTake
+    | WIdle, _ => if (0 <? mbox s) || (0 <? pills s) then Some LTurnBegin
+                  else if pass_wait s then match cs s with None => Some LPassLock | _ => None end else None
+    | WPill, Some _ => None
+    end
+  end.
+
+Fixpoint quiesce (fp gate_recv : bool) (fuel : nat) (s : st) : st :=
+  match fuel with
+  | O => s
+  | S f => match internal_label gate_recv s with
+           | Some l => match step fp s l with Some s' => quiesce fp gate_recv f s' | None => s end
+           | None => s
+           end
+  end.
+
+Definition drive1 (fp : bool) (s : st) (d : daction) : option st :=
+  match d with
+  | DTell => run fp s [LTellCheck false; LTellEnq false]
+  | DPill => run fp s [LTellCheck true; LTellEnq true]
+  | DCheck => step fp s (LTellCheck false)
+  | DEnq => step fp s (LTellEnq false)
+  | DStopOff => match step fp s LOffStop with Some s' => Some s' | None => Some s end   (* lock busy: the caller waits, then sees a stopped actor *)
+  | DPassivate => step fp s LPassCheck
+  | DReleaseRecv => step fp s LRecvEnd
+  | DReleasePost => step fp s LPostEnd
+  end.
+
+Definition drive (fp gate_recv : bool) (s : st) (d : daction) : st * nat :=
+  match drive1 fp s d with
+  | Some s' => (quiesce fp gate_recv 200 s', 0)
+  | None => (s, 1)
+  end.
+
+Definition count_ev (p : ev -> bool) (s : st) : nat := length (filter p (trace s)).
+Definition observe (s : st) : list nat :=
+  [ (if in_recv s then 1 else 0); (if in_post s then 1 else 0); (if is_running s then 1 else 0);
+    count_ev (fun e => match e with EPre _ => true | _ => false end) s;
+    count_ev (fun e => match e with ERecvB _ => true | _ => false end) s;
+    count_ev (fun e => match e with ERecvE _ => true | _ => false end) s;
+    count_ev (fun e => match e with EPostB _ => true | _ => false end) s;
+    count_ev (fun e => match e with EPostE _ => true | _ => false end) s ].
+
+Fixpoint drive_obs (fp gate_recv : bool) (s : st) (ds : list daction) : list (nat * list nat) :=
+  match ds with
+  | [] => []
+  | d :: ds' => let '(s', f) := drive fp gate_recv s d in (f, observe s') :: drive_obs fp gate_recv s' ds'
+  end.
+
+Fixpoint nat_list_eqb (a b : list nat) : bool :=
+  match a, b with
+  | [], [] => true
+  | x :: a', y :: b' => Nat.eqb x y && nat_list_eqb a' b'
+  | _, _ => false
+  end.
+Fixpoint first_obs_diff (i : nat) (xs ys : list (nat * list nat)) : option nat :=
+  match xs, ys with
+  | [], [] => None
+  | x :: xs', y :: ys' => if Nat.eqb (fst x) (fst y) && nat_list_eqb (snd x) (snd y) then first_obs_diff (S i) xs' ys' else Some i
+  | _, _ => Some i
+  end.
+(* the started actor: spawn = LInitBegin; LInitEnd *)
+Definition started : st := match run true init [LInitBegin; LInitEnd] with Some s => s | None => init end.
+Definition scenario_diff (fp : bool) (c : bool * list daction * list (nat * list nat)) : option nat :=
+  let '(gate_recv, ds, expected) := c in first_obs_diff 0 (drive_obs fp gate_recv started ds) expected.
